@@ -80,6 +80,9 @@ func (e *Engine) Discharge(o *Obligation, dir string, idx int, timeoutS int, see
 		o.Solver = "simplifier"
 		return
 	}
+	if o.Kind == "cover" && timeoutS > 3 {
+		timeoutS = 3
+	}
 	c := o.Ctx
 	hyps := relevantFacts(c, o.NFacts, o.Goal)
 	var gv []*Term
